@@ -149,7 +149,7 @@ pub fn math(n: usize) -> Inputs {
     out
 }
 
-pub const LITERALS: [(&str, &str); 44] = [
+pub const LITERALS: [(&str, &str); 53] = [
     ("str", "\"s\""),
     ("str_esc", "\"a\\\"b\\n\\u{41}\""),
     ("str_nl", "\"a\nb\""),
@@ -194,10 +194,21 @@ pub const LITERALS: [(&str, &str); 44] = [
     ("raw_inline_tick", "`` a`b ``"),
     ("str_nl_tab_end", "\"a\t\nb\""),
     ("raw_ls", "```\nx\u{2028}y\n```"),
+    // every other line terminator of Typst inside inline raw text and strings: the printer must not
+    // lay these literals out line by line (the lines after the first would pick up indentation)
+    ("raw_inline_ls", "`a\u{2028}b`"),
+    ("raw_inline_ps", "`a\u{2029}b`"),
+    ("raw_inline_nel", "`a\u{85}b`"),
+    ("raw_inline_ff", "`a\u{c}b`"),
+    ("raw_inline_vt", "`a\u{b}b`"),
+    ("raw_inline_cr", "`a\rb`"),
+    ("str_ls", "\"a\u{2028}b\""),
+    ("str_ff", "\"a\u{c} b\""),
+    ("raw3_nel", "```\nx\u{85}  y\n```"),
 ];
 
 /// Markup-position literal alphabet (same role, different lexical mode).
-pub const MARKUP_LITERALS: [(&str, &str); 14] = [
+pub const MARKUP_LITERALS: [(&str, &str); 19] = [
     ("m_ref", "@ref"),
     ("m_ref_dot", "@a.b:c"),
     ("m_label", "foo <a:b-c.d>"),
@@ -212,6 +223,11 @@ pub const MARKUP_LITERALS: [(&str, &str); 14] = [
     ("m_math_lit", "$1.5 0xff \"s  t\" a-b$"),
     ("m_ref_supp", "@ref[s  t]"),
     ("m_at", "a\\@b.c"),
+    ("m_raw_inline_ls", "`a\u{2028}b`"),
+    ("m_raw_inline_nel", "`a\u{85}b`"),
+    ("m_raw_inline_ff", "`a\u{c}b`"),
+    ("m_raw_inline_cr", "`a\rb`"),
+    ("m_raw_inline_lf", "`a\n b`"),
 ];
 
 /// Literal alphabet in every context: `spines` are (label, prefix, suffix) wrappers produced from
